@@ -135,6 +135,13 @@ class C01Check(ExplainerCheck):
             cfg["loss"]["family"] = "hash"
             cfg["loss"].pop("scale_exp", None)
             cfg["discontinuous_float_loss"] = True
+        elif cfg.get("arith") == "float" and cfg["loss"]["family"] in ("sq", "abs", "lin") and run_index % 3 == 1 \
+                and all(e["cls"] in ("sage", "pfi") for e in cfg["explainers"]):
+            # loss values "treated as arbitrary reals" whatever scalar type carries them: zero-one losses as np.uint8
+            # (0 - 1 wraps to 255 in that type) or np.bool_ (for which `-` is not defined)
+            cfg["loss"]["family"] = "npuint8" if (run_index // 3) % 2 else "npbool"
+            cfg["loss"].pop("scale_exp", None)
+            cfg["discontinuous_float_loss"] = True
         return plan
 
     def run(self, plan):
